@@ -475,6 +475,18 @@ def blockOps (ph : Phys) : Ops Block := nodeOps (compOps ph)
 def assemOps (ph : Phys) : Ops Assem := nodeOps (blockOps ph)
 def coreOps (ph : Phys) : Ops Core := nodeOps (assemOps ph)
 
+/-! ## uniform nesting of any depth: `Lvl d` = composites `d` levels above the components
+(`Lvl 1` = block, `Lvl 2` = assembly, `Lvl 3` = core, `Lvl 4` = a composite of cores, …) with the generic level
+operations applied `d` times -/
+
+def Lvl : Nat → Type
+  | 0 => Comp
+  | d + 1 => Node (Lvl d)
+
+def lvlOps (ph : Phys) : (d : Nat) → Ops (Lvl d)
+  | 0 => compOps ph
+  | d + 1 => nodeOps (lvlOps ph d)
+
 /-! ## `HexBlock.getSymmetryFactor`, `HexGrid.overlapsWhichSymmetryLine`, `Assembly.getSymmetryFactor` -/
 
 inductive SymLine where
